@@ -871,6 +871,10 @@ pub fn c05_h_spaces(tier: Tier) -> Vec<Space> {
 
 // --- C06 ---------------------------------------------------------------------------------------
 
+pub fn c06_victims_pub(cfg: &SvcCfg) -> Vec<Vec<u8>> {
+    c06_victims(cfg)
+}
+
 fn c06_victims(cfg: &SvcCfg) -> Vec<Vec<u8>> {
     let a = cfg.scripted[0].clone();
     vec![
